@@ -1,18 +1,1521 @@
-//! C19 — not built yet.
+//! C19 — reload swaps the whole configuration or none of it.
+//!
+//! Sequential part (E-SRV): the real `resolved` runs with `-Z zdir -A hdir -z zfile -a hfile`;
+//! every sequence of configuration edits up to a depth is applied, each edit followed by
+//! SIGUSR1, the log line `done - success|failure` and a query for every marker name.  The
+//! reference is a table: (files, loaded), `SIGUSR1` with every file valid => loaded := files,
+//! else unchanged.
+//!
+//! Concurrent part (E-GATE): the same binary with `RESOLVED_VERIF_GATE` set parks every
+//! task at named breakpoints on a unix socket owned by this driver, which releases one
+//! parked task at a time and so enumerates every ordering of a reload and one (two)
+//! in-flight queries, observing which releases block on the zones lock.
+
+use crate::c09::{build_msg, q, udp_batch, DirGuard, LogBuf, Server};
 use crate::common::*;
-use serde_json::Value;
+use crate::refwire;
+use dns_types::protocol::types::*;
+use serde_json::{json, Value};
+use std::collections::{BTreeMap, BTreeSet, HashMap, HashSet, VecDeque};
+use std::io::{BufRead, BufReader, Write};
+use std::net::{Ipv4Addr, SocketAddr, UdpSocket};
+use std::os::unix::net::{UnixListener, UnixStream};
+use std::path::{Path, PathBuf};
+use std::sync::atomic::{AtomicBool, AtomicU64, AtomicUsize, Ordering};
+use std::sync::mpsc::{channel, Receiver, RecvTimeoutError, Sender};
+use std::sync::{Arc, Condvar, Mutex};
+use std::time::{Duration, Instant};
 
-pub fn run(_ctx: &Ctx) -> i32 {
-    eprintln!("C19: check not built");
-    2
+// =====================================================================================
+// Sequential part: the configuration as a value, its files, its marker table
+// =====================================================================================
+
+#[derive(Clone, Copy, Debug, Eq, PartialEq, Hash, Ord, PartialOrd)]
+pub struct Files {
+    a_added: bool,
+    a_removed: bool,
+    a_changed: bool,
+    a_corrupt: bool,
+    b_present: bool,
+    c_present: bool,
+    h_added: bool,
+    h_removed: bool,
+    h_changed: bool,
+    h_corrupt: bool,
+    h2_present: bool,
+    /// the `-A` directory has been moved away
+    hdir_gone: bool,
+    /// the explicit `-z` file: 0 = there, 1 = deleted, 2 = replaced by a directory
+    main: u8,
 }
 
-pub fn replay(_ctx: &Ctx, _v: &Value) -> i32 {
-    eprintln!("C19: check not built");
-    2
+const BASE: Files = Files {
+    a_added: false,
+    a_removed: false,
+    a_changed: false,
+    a_corrupt: false,
+    b_present: true,
+    c_present: false,
+    h_added: false,
+    h_removed: false,
+    h_changed: false,
+    h_corrupt: false,
+    h2_present: false,
+    hdir_gone: false,
+    main: 0,
+};
+
+impl Files {
+    fn valid(&self) -> bool {
+        !self.a_corrupt && !self.h_corrupt && !self.hdir_gone && self.main == 0
+    }
+    fn to_json(&self) -> Value {
+        json!({
+            "zdir/10-a.zone": {"added": self.a_added, "removed": self.a_removed, "changed": self.a_changed, "corrupt": self.a_corrupt},
+            "zdir/20-b.zone": self.b_present,
+            "zdir/30-c.zone": self.c_present,
+            "hdir/10.hosts": {"added": self.h_added, "removed": self.h_removed, "changed": self.h_changed, "corrupt": self.h_corrupt},
+            "hdir/20.hosts": self.h2_present,
+            "hdir": (if self.hdir_gone { "moved away" } else { "there" }),
+            "main.zone": (["file", "deleted", "directory"][self.main as usize]),
+        })
+    }
 }
 
-/// Entry point for `vcheck worker C19 <args...>` (child-process mode).
+fn soa(apex: &str) -> String {
+    format!("$ORIGIN {apex}\n@ 60 IN SOA ns.{apex} admin.{apex} 1 3600 600 86400 60\n")
+}
+
+fn write_files(dir: &Path, f: &Files) -> Result<(), String> {
+    let e = |x: std::io::Error| format!("writing configuration: {x}");
+    let zdir = dir.join("zdir");
+    let hdir = dir.join("hdir");
+    std::fs::create_dir_all(&zdir).map_err(e)?;
+    if f.hdir_gone {
+        let _ = std::fs::remove_dir_all(&hdir);
+    } else {
+        std::fs::create_dir_all(&hdir).map_err(e)?;
+    }
+    // zdir/10-a.zone
+    let mut a = soa("a.test.");
+    a.push_str("keep 60 IN A 192.0.2.10\n");
+    if f.a_added {
+        a.push_str("added 60 IN A 192.0.2.101\n");
+    }
+    if !f.a_removed {
+        a.push_str("removable 60 IN A 192.0.2.102\n");
+    }
+    a.push_str(if f.a_changed {
+        "change 60 IN A 192.0.2.203\n"
+    } else {
+        "change 60 IN A 192.0.2.103\n"
+    });
+    if f.a_corrupt {
+        a.push_str("broken 60 IN A not-an-address\n");
+    }
+    std::fs::write(zdir.join("10-a.zone"), a).map_err(e)?;
+    // zdir/20-b.zone, zdir/30-c.zone
+    let b = zdir.join("20-b.zone");
+    if f.b_present {
+        std::fs::write(&b, format!("{}www 60 IN A 192.0.2.110\n", soa("b.test."))).map_err(e)?;
+    } else {
+        let _ = std::fs::remove_file(&b);
+    }
+    let c = zdir.join("30-c.zone");
+    if f.c_present {
+        std::fs::write(&c, format!("{}www 60 IN A 192.0.2.120\n", soa("c.test."))).map_err(e)?;
+    } else {
+        let _ = std::fs::remove_file(&c);
+    }
+    if !f.hdir_gone {
+        // hdir/10.hosts
+        let mut h = String::from("192.0.2.130 keep.lan\n");
+        if f.h_added {
+            h.push_str("192.0.2.131 hadd.lan\n");
+        }
+        if !f.h_removed {
+            h.push_str("192.0.2.132 hrem.lan\n");
+        }
+        h.push_str(if f.h_changed { "192.0.2.233 hchg.lan\n" } else { "192.0.2.133 hchg.lan\n" });
+        if f.h_corrupt {
+            h.push_str("999.1.1.1 bad.lan\n");
+        }
+        std::fs::write(hdir.join("10.hosts"), h).map_err(e)?;
+        let h2 = hdir.join("20.hosts");
+        if f.h2_present {
+            std::fs::write(&h2, "192.0.2.140 h2.lan\n").map_err(e)?;
+        } else {
+            let _ = std::fs::remove_file(&h2);
+        }
+    }
+    // explicit files
+    let main = dir.join("main.zone");
+    if main.is_dir() && f.main != 2 {
+        let _ = std::fs::remove_dir_all(&main);
+    }
+    match f.main {
+        0 => std::fs::write(&main, format!("{}www 60 IN A 192.0.2.150\n", soa("m.test."))).map_err(e)?,
+        1 => {
+            let _ = std::fs::remove_file(&main);
+        }
+        _ => {
+            if main.is_file() {
+                let _ = std::fs::remove_file(&main);
+            }
+            std::fs::create_dir_all(&main).map_err(e)?;
+        }
+    }
+    std::fs::write(dir.join("main.hosts"), "192.0.2.160 mainh.lan\n").map_err(e)?;
+    Ok(())
+}
+
+/// What a marker query must return: `Some(addr)` = NOERROR with exactly that A record,
+/// `None` = no such data (NXDOMAIN inside a served zone, SERVFAIL outside: told apart by `in_zone`).
+#[derive(Clone, Copy, Debug, Eq, PartialEq)]
+struct MarkerExp {
+    addr: Option<u8>,
+    /// the name lies in a zone that is loaded (=> NXDOMAIN when absent), else nothing is
+    /// known about it (=> SERVFAIL from an authoritative-only server)
+    in_zone: bool,
+}
+
+const MARKERS: [&str; 14] = [
+    "keep.a.test.",
+    "added.a.test.",
+    "removable.a.test.",
+    "change.a.test.",
+    "broken.a.test.",
+    "www.b.test.",
+    "www.c.test.",
+    "www.m.test.",
+    "keep.lan.",
+    "hadd.lan.",
+    "hrem.lan.",
+    "hchg.lan.",
+    "h2.lan.",
+    "mainh.lan.",
+];
+
+/// The table: what each marker answers when `l` is the loaded configuration.
+fn table(l: &Files) -> Vec<MarkerExp> {
+    let z = |addr: Option<u8>| MarkerExp { addr, in_zone: true };
+    let o = |addr: Option<u8>| MarkerExp { addr, in_zone: false };
+    vec![
+        z(Some(10)),
+        z(if l.a_added { Some(101) } else { None }),
+        z(if l.a_removed { None } else { Some(102) }),
+        z(Some(if l.a_changed { 203 } else { 103 })),
+        z(None),
+        if l.b_present { z(Some(110)) } else { o(None) },
+        if l.c_present { z(Some(120)) } else { o(None) },
+        z(Some(150)),
+        o(Some(130)),
+        o(if l.h_added { Some(131) } else { None }),
+        o(if l.h_removed { None } else { Some(132) }),
+        o(Some(if l.h_changed { 233 } else { 133 })),
+        o(if l.h2_present { Some(140) } else { None }),
+        o(Some(160)),
+    ]
+}
+
+type Edit = (&'static str, fn(&Files) -> Option<Files>);
+
+/// The edit alphabet.  An edit is applicable when it changes the files.
+const EDITS: [Edit; 18] = [
+    ("add a record to zdir/10-a.zone", |f| (!f.a_added).then(|| Files { a_added: true, ..*f })),
+    ("remove a record from zdir/10-a.zone", |f| (!f.a_removed).then(|| Files { a_removed: true, ..*f })),
+    ("change a record in zdir/10-a.zone", |f| Some(Files { a_changed: !f.a_changed, ..*f })),
+    ("corrupt zdir/10-a.zone (bad RDATA)", |f| (!f.a_corrupt).then(|| Files { a_corrupt: true, ..*f })),
+    ("repair zdir/10-a.zone", |f| f.a_corrupt.then(|| Files { a_corrupt: false, ..*f })),
+    ("add zone file zdir/30-c.zone", |f| (!f.c_present).then(|| Files { c_present: true, ..*f })),
+    ("remove zone file zdir/20-b.zone", |f| f.b_present.then(|| Files { b_present: false, ..*f })),
+    ("add an entry to hdir/10.hosts", |f| (!f.h_added).then(|| Files { h_added: true, ..*f })),
+    ("remove an entry from hdir/10.hosts", |f| (!f.h_removed).then(|| Files { h_removed: true, ..*f })),
+    ("change an entry in hdir/10.hosts", |f| Some(Files { h_changed: !f.h_changed, ..*f })),
+    ("corrupt hdir/10.hosts (bad address with a name)", |f| (!f.h_corrupt).then(|| Files { h_corrupt: true, ..*f })),
+    ("repair hdir/10.hosts", |f| f.h_corrupt.then(|| Files { h_corrupt: false, ..*f })),
+    ("add hosts file hdir/20.hosts", |f| (!f.h2_present).then(|| Files { h2_present: true, ..*f })),
+    ("move the -A directory away", |f| (!f.hdir_gone).then(|| Files { hdir_gone: true, ..*f })),
+    ("put the -A directory back", |f| f.hdir_gone.then(|| Files { hdir_gone: false, ..*f })),
+    ("delete the explicit -z file", |f| (f.main != 1).then(|| Files { main: 1, ..*f })),
+    ("replace the explicit -z file by a directory", |f| (f.main != 2).then(|| Files { main: 2, ..*f })),
+    ("restore the explicit -z file", |f| (f.main != 0).then(|| Files { main: 0, ..*f })),
+];
+
+fn edit_by_name(name: &str) -> Option<Edit> {
+    EDITS.iter().copied().find(|(n, _)| *n == name)
+}
+
+fn marker_queries(id0: u16) -> Vec<Vec<u8>> {
+    MARKERS
+        .iter()
+        .enumerate()
+        .map(|(i, n)| build_msg(id0 + i as u16, 0, &[q(n, 1, 1)], &[], None))
+        .collect()
+}
+
+/// (rcode, last octets of the A records in the answer section), or None when no reply.
+fn digest_reply(r: Option<&Vec<u8>>) -> Option<(u8, Vec<u8>)> {
+    let r = r?;
+    let m = refwire::decode(r).ok()?;
+    let mut addrs: Vec<u8> = m
+        .answers
+        .iter()
+        .filter_map(|rr| match rr.rtype_with_data {
+            RecordTypeWithData::A { address } => Some(address.octets()[3]),
+            _ => None,
+        })
+        .collect();
+    addrs.sort();
+    Some((u8::from(m.header.rcode), addrs))
+}
+
+fn fits(exp: &MarkerExp, got: &Option<(u8, Vec<u8>)>) -> bool {
+    match (exp.addr, got) {
+        (Some(a), Some((0, v))) => v.len() == 1 && v[0] == a,
+        (None, Some((rc, v))) => v.is_empty() && *rc == if exp.in_zone { 3 } else { 2 },
+        _ => false,
+    }
+}
+
+fn show_got(got: &Option<(u8, Vec<u8>)>) -> String {
+    match got {
+        None => "no reply".into(),
+        Some((rc, v)) => format!("rcode {rc}, A {:?}", v),
+    }
+}
+
+fn show_exp(e: &MarkerExp) -> String {
+    match e.addr {
+        Some(a) => format!("A 192.0.2.{a}"),
+        None => if e.in_zone { "NXDOMAIN".into() } else { "SERVFAIL (no data)".into() },
+    }
+}
+
+struct SeqServer {
+    dir: PathBuf,
+    srv: Server,
+    next_id: u16,
+    /// the configuration in force, by the reference model
+    loaded: Files,
+}
+
+#[derive(Default)]
+struct SeqStats {
+    signals: u64,
+    marker_queries: u64,
+    during_queries: u64,
+    findings: Vec<(String, String)>,
+}
+
+impl SeqServer {
+    fn ids(&mut self) -> u16 {
+        self.next_id = if self.next_id > 0xf000 { 1 } else { self.next_id + 32 };
+        self.next_id
+    }
+
+    /// SIGUSR1, queries fired while the reload runs, the log line, then every marker.
+    /// Returns the findings of this step.
+    fn signal_and_check(&mut self, files: &Files, loaded: &mut Files, stats: &mut SeqStats, what: &str) {
+        let from = self.srv.log.len();
+        let old = *loaded;
+        let expect_ok = files.valid();
+        if expect_ok {
+            *loaded = *files;
+        }
+        self.srv.signal(libc::SIGUSR1);
+        stats.signals += 1;
+        // during: each marker must answer per the old or per the new table
+        let id0 = self.ids();
+        let qs = marker_queries(id0);
+        let want = vec![true; qs.len()];
+        let during = udp_batch(self.srv.addr, &qs, &want, qs.len(), 1);
+        stats.during_queries += qs.len() as u64;
+        let (t_old, t_new) = (table(&old), table(loaded));
+        for (i, name) in MARKERS.iter().enumerate() {
+            let got = digest_reply(during.replies[i].first());
+            if !fits(&t_old[i], &got) && !fits(&t_new[i], &got) {
+                stats.findings.push((
+                    "during-reload".into(),
+                    format!("{what}: `{name} A` asked while the reload ran answered {}; old configuration says {}, new says {}", show_got(&got), show_exp(&t_old[i]), show_exp(&t_new[i])),
+                ));
+            }
+        }
+        match self.srv.log.wait_for(from, Duration::from_secs(20), |l| l.contains("done - success") || l.contains("done - failure")) {
+            None => {
+                stats.findings.push(("reload-log".into(), format!("{what}: no `done - ...` line within 20 s of SIGUSR1")));
+                return;
+            }
+            Some((_, line)) => {
+                let ok = line.contains("done - success");
+                if ok != expect_ok {
+                    stats.findings.push((
+                        "reload-verdict".into(),
+                        format!("{what}: the log says `{}` but {}", if ok { "done - success" } else { "done - failure" }, if expect_ok { "every file is valid" } else { "a file is invalid or unreadable" }),
+                    ));
+                }
+            }
+        }
+        let id0 = self.ids();
+        let qs = marker_queries(id0);
+        let after = udp_batch(self.srv.addr, &qs, &want, qs.len(), 1);
+        stats.marker_queries += qs.len() as u64;
+        if after.dead || !self.srv.alive() {
+            stats.findings.push(("liveness".into(), format!("{what}: the server stopped answering ({})", self.srv.exit_status())));
+            return;
+        }
+        let t = table(loaded);
+        for (i, name) in MARKERS.iter().enumerate() {
+            let got = digest_reply(after.replies[i].first());
+            if !fits(&t[i], &got) {
+                let clause = if expect_ok { "after-successful-reload" } else { "after-failed-reload" };
+                stats.findings.push((
+                    clause.into(),
+                    format!("{what}: `{name} A` answered {}; the configuration in force says {}", show_got(&got), show_exp(&t[i])),
+                ));
+            }
+        }
+    }
+
+    /// Restore the base files, reload, verify.  False = the server cannot be brought back.
+    fn reset(&mut self, stats: &mut SeqStats) -> bool {
+        if write_files(&self.dir, &BASE).is_err() {
+            return false;
+        }
+        let mut loaded = self.loaded;
+        let before = stats.findings.len();
+        self.signal_and_check(&BASE, &mut loaded, stats, "reset to the base files");
+        self.loaded = loaded;
+        stats.findings.len() == before
+    }
+
+    /// One edit sequence from the reset state.
+    fn run_sequence(&mut self, edits: &[Edit], stats: &mut SeqStats) -> Option<(Files, Files)> {
+        if !self.reset(stats) {
+            return None;
+        }
+        let mut files = BASE;
+        let mut loaded = BASE;
+        let mut done: Vec<&str> = Vec::new();
+        for (name, f) in edits {
+            let Some(next) = f(&files) else {
+                return None;
+            };
+            files = next;
+            done.push(name);
+            if write_files(&self.dir, &files).is_err() {
+                return None;
+            }
+            let what = format!("after [{}] + SIGUSR1", done.join("; "));
+            self.signal_and_check(&files, &mut loaded, stats, &what);
+            self.loaded = loaded;
+        }
+        Some((files, loaded))
+    }
+}
+
+fn start_seq_server(root: &Path, k: usize) -> Result<SeqServer, String> {
+    let dir = root.join(format!("seq{k}"));
+    std::fs::create_dir_all(&dir).map_err(|e| format!("{e}"))?;
+    write_files(&dir, &BASE)?;
+    let args: Vec<String> = vec![
+        "--authoritative-only".into(),
+        "-s".into(),
+        "1".into(),
+        "-Z".into(),
+        dir.join("zdir").display().to_string(),
+        "-A".into(),
+        dir.join("hdir").display().to_string(),
+        "-z".into(),
+        dir.join("main.zone").display().to_string(),
+        "-a".into(),
+        dir.join("main.hosts").display().to_string(),
+    ];
+    let srv = Server::start(&args, &[], "info")?;
+    Ok(SeqServer { dir, srv, next_id: 1, loaded: BASE })
+}
+
+// =====================================================================================
+// Concurrent part: the gate controller
+// =====================================================================================
+
+const RELOAD_TAG: u32 = 0x1_0000;
+const Q1_ID: u16 = 0x0101;
+const Q2_ID: u16 = 0x0202;
+/// A released task predicted to block on the zones lock is given this long to prove the
+/// prediction wrong.
+const QUIET: Duration = Duration::from_millis(120);
+/// Any other awaited event.
+const LONG: Duration = Duration::from_secs(6);
+
+struct Arrival {
+    gate: String,
+    tag: u32,
+    stream: UnixStream,
+}
+
+struct GateServer {
+    dir: PathBuf,
+    srv: Server,
+    rx: Receiver<Arrival>,
+    stop: Arc<AtomicBool>,
+    sock_path: PathBuf,
+}
+
+impl Drop for GateServer {
+    fn drop(&mut self) {
+        self.stop.store(true, Ordering::SeqCst);
+        // wake the accept loop
+        let _ = UnixStream::connect(&self.sock_path);
+    }
+}
+
+fn gate_zone_a(new: bool) -> String {
+    if new {
+        format!("{}x 200 IN CNAME y.b.test.\nstay 60 IN A 192.0.2.9\n", soa("a.test."))
+    } else {
+        format!("{}x 100 IN CNAME y.b.test.\nstay 60 IN A 192.0.2.9\ngone 60 IN A 192.0.2.8\n", soa("a.test."))
+    }
+}
+
+fn gate_zone_b(new: bool) -> String {
+    if new {
+        format!("{}y 200 IN A 192.0.2.2\nfresh 60 IN A 192.0.2.7\n", soa("b.test."))
+    } else {
+        format!("{}y 100 IN A 192.0.2.1\n", soa("b.test."))
+    }
+}
+
+/// variant: 0 = old, 1 = new (valid), 2 = new zones + a hosts file that does not parse
+fn write_gate_files(dir: &Path, variant: u8) -> Result<(), String> {
+    let e = |x: std::io::Error| format!("writing configuration: {x}");
+    let zdir = dir.join("zdir");
+    let hdir = dir.join("hdir");
+    std::fs::create_dir_all(&zdir).map_err(e)?;
+    std::fs::create_dir_all(&hdir).map_err(e)?;
+    std::fs::write(zdir.join("10-a.zone"), gate_zone_a(variant != 0)).map_err(e)?;
+    std::fs::write(zdir.join("20-b.zone"), gate_zone_b(variant != 0)).map_err(e)?;
+    std::fs::write(
+        hdir.join("10.hosts"),
+        if variant == 2 { "192.0.2.130 keep.lan\n999.1.1.1 bad.lan\n" } else { "192.0.2.130 keep.lan\n" },
+    )
+    .map_err(e)?;
+    Ok(())
+}
+
+fn start_gate_server(root: &Path, k: usize) -> Result<GateServer, String> {
+    let dir = root.join(format!("g{k}"));
+    std::fs::create_dir_all(&dir).map_err(|e| format!("{e}"))?;
+    write_gate_files(&dir, 0)?;
+    let sock_path = dir.join("gate.sock");
+    let listener = UnixListener::bind(&sock_path).map_err(|e| format!("gate socket: {e}"))?;
+    let (tx, rx) = channel::<Arrival>();
+    let stop = Arc::new(AtomicBool::new(false));
+    let stop2 = stop.clone();
+    std::thread::spawn(move || {
+        for conn in listener.incoming() {
+            if stop2.load(Ordering::SeqCst) {
+                break;
+            }
+            let Ok(stream) = conn else { continue };
+            let _ = stream.set_read_timeout(Some(Duration::from_secs(2)));
+            let mut line = String::new();
+            let mut rd = BufReader::new(match stream.try_clone() {
+                Ok(s) => s,
+                Err(_) => continue,
+            });
+            if rd.read_line(&mut line).is_err() {
+                continue;
+            }
+            let mut it = line.split_whitespace();
+            if it.next() != Some("ARRIVE") {
+                continue;
+            }
+            let gate = it.next().unwrap_or("").to_string();
+            let tag = it.next().and_then(|t| t.parse::<u32>().ok()).unwrap_or(0);
+            if tx.send(Arrival { gate, tag, stream }).is_err() {
+                break;
+            }
+        }
+    });
+    let args: Vec<String> = vec![
+        "--authoritative-only".into(),
+        "-s".into(),
+        "1".into(),
+        "-Z".into(),
+        dir.join("zdir").display().to_string(),
+        "-A".into(),
+        dir.join("hdir").display().to_string(),
+    ];
+    let envs = vec![("RESOLVED_VERIF_GATE".to_string(), sock_path.display().to_string())];
+    let srv = Server::start(&args, &envs, "info")?;
+    Ok(GateServer { dir, srv, rx, stop, sock_path })
+}
+
+fn go(a: Arrival) {
+    let mut s = a.stream;
+    let _ = s.write_all(b"GO\n");
+}
+
+#[derive(Clone, Copy, Debug, Eq, PartialEq, Hash, Ord, PartialOrd)]
+pub enum Task {
+    R,
+    Q1,
+    Q2,
+}
+
+impl Task {
+    fn name(self) -> &'static str {
+        match self {
+            Task::R => "R",
+            Task::Q1 => "Q1",
+            Task::Q2 => "Q2",
+        }
+    }
+    fn from_name(s: &str) -> Option<Task> {
+        match s {
+            "R" => Some(Task::R),
+            "Q1" => Some(Task::Q1),
+            "Q2" => Some(Task::Q2),
+            _ => None,
+        }
+    }
+    fn tag(self) -> u32 {
+        match self {
+            Task::R => RELOAD_TAG,
+            Task::Q1 => u32::from(Q1_ID),
+            Task::Q2 => u32::from(Q2_ID),
+        }
+    }
+}
+
+enum Pos {
+    /// not started: releasing it sends the signal / the datagram
+    Start,
+    Parked(Arrival),
+    /// released, next breakpoint not reached (yet)
+    Running,
+    Done,
+}
+
+struct TaskState {
+    pos: Pos,
+    sock: Option<UdpSocket>,
+    /// Q2: breakpoints after `query.locked` are passed without asking the scheduler
+    coarse: bool,
+    reply: Option<Vec<u8>>,
+    extra_replies: usize,
+    // event clock values (0 = not happened)
+    t_arrive: HashMap<String, u64>,
+    t_release: HashMap<String, u64>,
+    last_gate: String,
+}
+
+#[derive(Clone, Debug, Default)]
+pub struct Trace {
+    pub choices: Vec<Task>,
+    pub enabled: Vec<Vec<Task>>,
+    pub events: Vec<String>,
+    pub replies: BTreeMap<&'static str, String>,
+    pub verify: String,
+    pub log_verdict: String,
+    pub findings: Vec<(String, String)>,
+    pub blocked_steps: u64,
+    pub releases: u64,
+    pub machinery: Option<String>,
+}
+
+impl Trace {
+    fn signature(&self) -> String {
+        format!("{:?}|{:?}|{:?}|{}|{}", self.choices, self.enabled, self.replies, self.verify, self.log_verdict)
+    }
+}
+
+fn classify_reply(r: &[u8], id: u16) -> String {
+    let Ok(m) = refwire::decode(r) else {
+        return "unparseable".into();
+    };
+    if m.header.id != id {
+        return format!("wrong id {:#06x}", m.header.id);
+    }
+    let mut cname_ttl = None;
+    let mut a = None;
+    for rr in &m.answers {
+        match &rr.rtype_with_data {
+            RecordTypeWithData::CNAME { .. } => cname_ttl = Some(rr.ttl),
+            RecordTypeWithData::A { address } => a = Some((address.octets()[3], rr.ttl)),
+            _ => {}
+        }
+    }
+    match (m.answers.len(), cname_ttl, a) {
+        (2, Some(100), Some((1, 100))) => "old".into(),
+        (2, Some(200), Some((2, 200))) => "new".into(),
+        _ => format!(
+            "mixed/other: rcode {} answers {:?}",
+            u8::from(m.header.rcode),
+            m.answers.iter().map(|rr| format!("{} {} {:?}", rr.name.to_dotted_string(), rr.ttl, rr.rtype_with_data.rtype())).collect::<Vec<_>>()
+        ),
+    }
+}
+
+impl GateServer {
+    /// Release every arrival at once until `until` says stop (used for reset and for the
+    /// verification queries).  Returns the gates seen.
+    fn auto<F: FnMut(&[String]) -> bool>(&mut self, mut until: F, timeout: Duration) -> Vec<String> {
+        let deadline = Instant::now() + timeout;
+        let mut seen: Vec<String> = Vec::new();
+        loop {
+            if until(&seen) {
+                return seen;
+            }
+            let now = Instant::now();
+            if now >= deadline {
+                return seen;
+            }
+            match self.rx.recv_timeout((deadline - now).min(Duration::from_millis(20))) {
+                Ok(a) => {
+                    seen.push(format!("{}:{}", a.gate, a.tag));
+                    go(a);
+                }
+                Err(RecvTimeoutError::Timeout) => {}
+                Err(RecvTimeoutError::Disconnected) => return seen,
+            }
+        }
+    }
+
+    /// One query with every gate released at once.
+    fn auto_query(&mut self, name: &str, id: u16) -> Option<Vec<u8>> {
+        let sock = UdpSocket::bind((Ipv4Addr::LOCALHOST, 0)).ok()?;
+        let _ = sock.connect(self.srv.addr);
+        let _ = sock.set_nonblocking(true);
+        let _ = sock.send(&build_msg(id, 0, &[q(name, 1, 1)], &[], None));
+        let mut buf = [0u8; 1024];
+        let mut got: Option<Vec<u8>> = None;
+        self.auto(
+            |_| {
+                if let Ok(n) = sock.recv(&mut buf) {
+                    got = Some(buf[..n].to_vec());
+                }
+                got.is_some()
+            },
+            LONG,
+        );
+        got
+    }
+
+    /// Bring the server to the old configuration with nothing parked.
+    fn reset(&mut self) -> Result<(), String> {
+        // drain anything left over
+        self.auto(|_| false, Duration::from_millis(1));
+        write_gate_files(&self.dir, 0)?;
+        let from = self.srv.log.len();
+        self.srv.signal(libc::SIGUSR1);
+        let seen = self.auto(|s| s.iter().any(|g| g.starts_with("reload.done")), LONG);
+        if !seen.iter().any(|g| g.starts_with("reload.done")) {
+            return Err(format!("reset: the reload task did not reach reload.done (saw {seen:?})"));
+        }
+        if self.srv.log.wait_for(from, LONG, |l| l.contains("done - success")).is_none() {
+            return Err("reset: no `done - success` line".into());
+        }
+        match self.auto_query("x.a.test.", 0x0f0f) {
+            Some(r) if classify_reply(&r, 0x0f0f) == "old" => Ok(()),
+            other => Err(format!("reset: the old configuration is not in force ({:?})", other.map(|r| classify_reply(&r, 0x0f0f)))),
+        }
+    }
+
+    /// Run one schedule: `prefix` fixes the first choices, afterwards the first parked task
+    /// (in the order R, Q1, Q2) is released.  `failing`: the reload must fail.
+    fn run_schedule(&mut self, tasks: &[Task], failing: bool, prefix: &[Task]) -> Trace {
+        let mut tr = Trace::default();
+        if let Err(e) = self.reset() {
+            tr.machinery = Some(e);
+            return tr;
+        }
+        if let Err(e) = write_gate_files(&self.dir, if failing { 2 } else { 1 }) {
+            tr.machinery = Some(e);
+            return tr;
+        }
+        let log_from = self.srv.log.len();
+        let mut clock: u64 = 0;
+        let mut st: BTreeMap<Task, TaskState> = BTreeMap::new();
+        for &t in tasks {
+            let sock = if t == Task::R {
+                None
+            } else {
+                let s = UdpSocket::bind((Ipv4Addr::LOCALHOST, 0)).ok();
+                if let Some(s) = &s {
+                    let _ = s.connect(self.srv.addr);
+                    let _ = s.set_nonblocking(true);
+                }
+                s
+            };
+            st.insert(
+                t,
+                TaskState {
+                    pos: Pos::Start,
+                    sock,
+                    coarse: t == Task::Q2,
+                    reply: None,
+                    extra_replies: 0,
+                    t_arrive: HashMap::new(),
+                    t_release: HashMap::new(),
+                    last_gate: "start".into(),
+                },
+            );
+        }
+        let by_tag = |tag: u32| -> Option<Task> { tasks.iter().copied().find(|t| t.tag() == tag) };
+
+        // --- helpers working on (st, tr, clock) ---------------------------------------
+        // Take in one arrival.
+        fn admit(st: &mut BTreeMap<Task, TaskState>, tr: &mut Trace, clock: &mut u64, t: Task, a: Arrival) {
+            *clock += 1;
+            let s = st.get_mut(&t).unwrap();
+            s.t_arrive.insert(a.gate.clone(), *clock);
+            s.last_gate = a.gate.clone();
+            tr.events.push(format!("arrive {}@{}", t.name(), a.gate));
+            if s.coarse && a.gate != "query.locked" {
+                // coarse task: not a choice point
+                *clock += 1;
+                s.t_release.insert(a.gate.clone(), *clock);
+                tr.events.push(format!("auto-release {}@{}", t.name(), a.gate));
+                go(a);
+                s.pos = Pos::Running;
+            } else {
+                s.pos = Pos::Parked(a);
+            }
+        }
+        // Poll replies of running query tasks.
+        fn poll_replies(st: &mut BTreeMap<Task, TaskState>, tr: &mut Trace, clock: &mut u64) {
+            let mut buf = [0u8; 1024];
+            for (t, s) in st.iter_mut() {
+                if let Some(sock) = &s.sock {
+                    while let Ok(n) = sock.recv(&mut buf) {
+                        if s.reply.is_none() {
+                            *clock += 1;
+                            s.reply = Some(buf[..n].to_vec());
+                            tr.events.push(format!("reply {}", t.name()));
+                            if matches!(s.pos, Pos::Running) && s.t_release.contains_key("query.resolved") {
+                                s.pos = Pos::Done;
+                            }
+                        } else {
+                            s.extra_replies += 1;
+                        }
+                    }
+                }
+            }
+        }
+
+        let mut step = 0usize;
+        loop {
+            // take in whatever has arrived meanwhile
+            while let Ok(a) = self.rx.try_recv() {
+                match by_tag(a.tag) {
+                    Some(t) => admit(&mut st, &mut tr, &mut clock, t, a),
+                    None => {
+                        tr.events.push(format!("foreign arrival {}:{} released", a.gate, a.tag));
+                        go(a);
+                    }
+                }
+            }
+            poll_replies(&mut st, &mut tr, &mut clock);
+            if st.values().all(|s| matches!(s.pos, Pos::Done)) {
+                break;
+            }
+            let enabled: Vec<Task> = st
+                .iter()
+                .filter(|(_, s)| matches!(s.pos, Pos::Start | Pos::Parked(_)))
+                .map(|(t, _)| *t)
+                .collect();
+            if enabled.is_empty() {
+                // everything that is not done is running: wait for any of them
+                let deadline = Instant::now() + LONG;
+                let mut progressed = false;
+                while Instant::now() < deadline && !progressed {
+                    if let Ok(a) = self.rx.recv_timeout(Duration::from_millis(5)) {
+                        if let Some(t) = by_tag(a.tag) {
+                            admit(&mut st, &mut tr, &mut clock, t, a);
+                        } else {
+                            go(a);
+                        }
+                        progressed = true;
+                    }
+                    let before = st.values().filter(|s| matches!(s.pos, Pos::Done)).count();
+                    poll_replies(&mut st, &mut tr, &mut clock);
+                    if st.values().filter(|s| matches!(s.pos, Pos::Done)).count() > before {
+                        progressed = true;
+                    }
+                }
+                if !progressed {
+                    let stuck: Vec<String> = st
+                        .iter()
+                        .filter(|(_, s)| !matches!(s.pos, Pos::Done))
+                        .map(|(t, s)| format!("{} after {}", t.name(), s.last_gate))
+                        .collect();
+                    tr.findings.push(("deadlock".into(), format!("no task is parked and none completes within {LONG:?}: {stuck:?}")));
+                    break;
+                }
+                continue;
+            }
+            let choice = if step < prefix.len() {
+                if !enabled.contains(&prefix[step]) {
+                    tr.machinery = Some(format!("schedule prefix asks for {} at step {step} but the parked tasks are {:?} (events {:?})", prefix[step].name(), enabled, tr.events));
+                    break;
+                }
+                prefix[step]
+            } else {
+                enabled[0]
+            };
+            tr.choices.push(choice);
+            tr.enabled.push(enabled.clone());
+            step += 1;
+            tr.releases += 1;
+
+            // --- prediction (only to pick the waiting time; the classification is observed) ---
+            let inside = |s: &TaskState| s.t_arrive.contains_key("query.locked") && !s.t_release.contains_key("query.resolved");
+            let r_state = st.get(&Task::R);
+            let r_wants = r_state.map_or(false, |s| s.t_release.contains_key("reload.want_lock") && !s.t_release.contains_key("reload.locked"));
+            let from_gate = match &st[&choice].pos {
+                Pos::Start => "start".to_string(),
+                Pos::Parked(a) => a.gate.clone(),
+                _ => String::new(),
+            };
+            let predicted_block = match choice {
+                Task::R => from_gate == "reload.want_lock" && st.iter().any(|(t, s)| *t != Task::R && inside(s)),
+                _ => from_gate == "start" && r_wants,
+            };
+            // --- release ---
+            clock += 1;
+            {
+                let s = st.get_mut(&choice).unwrap();
+                s.t_release.insert(from_gate.clone(), clock);
+                tr.events.push(format!("release {}@{}", choice.name(), from_gate));
+                match std::mem::replace(&mut s.pos, Pos::Running) {
+                    Pos::Start => {
+                        if choice == Task::R {
+                            self.srv.signal(libc::SIGUSR1);
+                        } else if let Some(sock) = &s.sock {
+                            let id = choice.tag() as u16;
+                            let _ = sock.send(&build_msg(id, 0, &[q("x.a.test.", 1, 1)], &[], None));
+                        }
+                    }
+                    Pos::Parked(a) => {
+                        let last = a.gate == "reload.done";
+                        go(a);
+                        if last {
+                            s.pos = Pos::Done;
+                        }
+                    }
+                    _ => {}
+                }
+            }
+            // --- wait for the consequence ---
+            let settled = |st: &BTreeMap<Task, TaskState>, t: Task| !matches!(st[&t].pos, Pos::Running);
+            let deadline = Instant::now() + if predicted_block { QUIET } else { LONG };
+            while !settled(&st, choice) && Instant::now() < deadline {
+                if let Ok(a) = self.rx.recv_timeout(Duration::from_millis(2)) {
+                    match by_tag(a.tag) {
+                        Some(t) => admit(&mut st, &mut tr, &mut clock, t, a),
+                        None => go(a),
+                    }
+                }
+                poll_replies(&mut st, &mut tr, &mut clock);
+            }
+            if !settled(&st, choice) {
+                tr.blocked_steps += 1;
+                tr.events.push(format!("blocked {}{}", choice.name(), if predicted_block { "" } else { " (not predicted)" }));
+            } else if predicted_block {
+                tr.events.push(format!("not blocked {} (predicted to block)", choice.name()));
+            }
+            // Tasks that were blocked and, by the driver's bookkeeping, can go on now: give them
+            // time to show up (again only a waiting policy; what happens is what is recorded).
+            loop {
+                let inside_any = st.iter().any(|(t, s)| *t != Task::R && inside(s));
+                let r_waiting = st.get(&Task::R).map_or(false, |s| {
+                    matches!(s.pos, Pos::Running) && s.t_release.contains_key("reload.want_lock") && !s.t_arrive.contains_key("reload.locked")
+                });
+                let r_holds_or_waits = st.get(&Task::R).map_or(false, |s| s.t_release.contains_key("reload.want_lock") && !s.t_release.contains_key("reload.locked"));
+                let mut due: Vec<Task> = Vec::new();
+                if r_waiting && !inside_any {
+                    due.push(Task::R);
+                }
+                for (t, s) in &st {
+                    if *t != Task::R && matches!(s.pos, Pos::Running) && s.t_release.contains_key("start") && !s.t_arrive.contains_key("query.locked") && !r_holds_or_waits {
+                        due.push(*t);
+                    }
+                }
+                if due.is_empty() {
+                    break;
+                }
+                let deadline = Instant::now() + LONG;
+                let pending = |st: &BTreeMap<Task, TaskState>| due.iter().all(|t| !settled(st, *t));
+                while pending(&st) && Instant::now() < deadline {
+                    if let Ok(a) = self.rx.recv_timeout(Duration::from_millis(2)) {
+                        match by_tag(a.tag) {
+                            Some(t) => admit(&mut st, &mut tr, &mut clock, t, a),
+                            None => go(a),
+                        }
+                    }
+                    poll_replies(&mut st, &mut tr, &mut clock);
+                }
+                if pending(&st) {
+                    tr.events.push(format!("still blocked although the lock looks free: {:?}", due.iter().map(|t| t.name()).collect::<Vec<_>>()));
+                    break;
+                }
+            }
+            if step > 64 {
+                tr.machinery = Some("schedule longer than 64 steps".into());
+                break;
+            }
+        }
+
+        // release anything still parked so that the server is usable again
+        for s in st.values_mut() {
+            if let Pos::Parked(a) = std::mem::replace(&mut s.pos, Pos::Done) {
+                go(a);
+            }
+        }
+        if tr.machinery.is_some() {
+            self.auto(|_| false, Duration::from_millis(200));
+            return tr;
+        }
+
+        // --- oracle ---
+        std::thread::sleep(Duration::from_millis(3));
+        poll_replies(&mut st, &mut tr, &mut clock);
+        let line = self.srv.log.wait_for(log_from, LONG, |l| l.contains("done - success") || l.contains("done - failure"));
+        tr.log_verdict = match &line {
+            Some((_, l)) if l.contains("done - success") => "success".into(),
+            Some(_) => "failure".into(),
+            None => "none".into(),
+        };
+        let want_verdict = if failing { "failure" } else { "success" };
+        if tr.log_verdict != want_verdict && tasks.contains(&Task::R) {
+            tr.findings.push(("reload-verdict".into(), format!("the log says `{}`, expected `{want_verdict}`", tr.log_verdict)));
+        }
+        let r = st.get(&Task::R);
+        let r_arrive_locked = r.and_then(|s| s.t_arrive.get("reload.locked").copied());
+        let r_release_locked = r.and_then(|s| s.t_release.get("reload.locked").copied());
+        for (t, s) in &st {
+            if *t == Task::R {
+                continue;
+            }
+            let class = match &s.reply {
+                None => "no reply".to_string(),
+                Some(rp) => classify_reply(rp, t.tag() as u16),
+            };
+            tr.replies.insert(t.name(), class.clone());
+            if s.reply.is_none() {
+                tr.findings.push(("query-unanswered".into(), format!("{} got no reply although every breakpoint was released", t.name())));
+                continue;
+            }
+            if s.extra_replies > 0 {
+                tr.findings.push(("query-answered-twice".into(), format!("{} got {} replies", t.name(), 1 + s.extra_replies)));
+            }
+            if class != "old" && class != "new" {
+                tr.findings.push(("mixed-answer".into(), format!("{} was answered neither entirely from the old nor entirely from the new configuration: {class}", t.name())));
+                continue;
+            }
+            let q_locked = s.t_arrive.get("query.locked").copied().unwrap_or(0);
+            let q_resolved = s.t_arrive.get("query.resolved").copied().unwrap_or(0);
+            if failing {
+                if class != "old" {
+                    tr.findings.push(("failed-reload-took-effect".into(), format!("{} was answered from the new files although the reload must fail", t.name())));
+                }
+                continue;
+            }
+            if let Some(ral) = r_arrive_locked {
+                if q_locked > ral && class != "new" {
+                    tr.findings.push(("stale-after-swap".into(), format!("{} took the read lock after the reload held the write lock, but was answered from the old configuration", t.name())));
+                }
+            }
+            let before_swap = match r_release_locked {
+                None => true,
+                Some(rrl) => q_resolved != 0 && q_resolved < rrl,
+            };
+            if before_swap && class != "old" {
+                tr.findings.push(("new-before-swap".into(), format!("{} finished resolving before the reload was let past reload.locked, but was answered from the new configuration", t.name())));
+            }
+        }
+        // afterwards the configuration in force is the new one (or still the old one)
+        let gone = self.auto_query("gone.a.test.", 0x0e01).and_then(|r| digest_reply(Some(&r)));
+        let fresh = self.auto_query("fresh.b.test.", 0x0e02).and_then(|r| digest_reply(Some(&r)));
+        let after = self.auto_query("x.a.test.", 0x0e03).map(|r| classify_reply(&r, 0x0e03));
+        tr.verify = format!("gone={} fresh={} x={:?}", show_got(&gone), show_got(&fresh), after);
+        let want_new = !failing && tasks.contains(&Task::R);
+        let ok = if want_new {
+            gone == Some((3, vec![])) && fresh == Some((0, vec![7])) && after.as_deref() == Some("new")
+        } else {
+            gone == Some((0, vec![8])) && fresh == Some((3, vec![])) && after.as_deref() == Some("old")
+        };
+        if !ok {
+            tr.findings.push((
+                if want_new { "after-successful-reload" } else { "after-failed-reload" }.into(),
+                format!("after the schedule: {} (expected the {} configuration, whole)", tr.verify, if want_new { "new" } else { "old" }),
+            ));
+        }
+        if !self.srv.alive() {
+            tr.findings.push(("liveness".into(), format!("server gone: {}", self.srv.exit_status())));
+        }
+        tr
+    }
+}
+
+// =====================================================================================
+// Exploration
+// =====================================================================================
+
+#[derive(Clone, Debug)]
+struct GateJob {
+    tasks: Vec<Task>,
+    failing: bool,
+    prefix: Vec<Task>,
+}
+
+fn job_name(tasks: &[Task], failing: bool) -> String {
+    format!(
+        "{}{}",
+        tasks.iter().map(|t| t.name()).collect::<Vec<_>>().join(" || "),
+        if failing { " (reload must fail)" } else { "" }
+    )
+}
+
+#[derive(Default)]
+struct GateTotals {
+    schedules: u64,
+    releases: u64,
+    blocked: u64,
+    nondeterministic: u64,
+    replayed: u64,
+    reordered: u64,
+    hist: BTreeMap<String, u64>,
+    violations: Vec<Violation>,
+    samples: Vec<Value>,
+    machinery: Vec<String>,
+    traces: BTreeSet<String>,
+}
+
+fn gate_violation(job: &GateJob, tr: &Trace, clause: &str, text: &str) -> Violation {
+    Violation {
+        clause: clause.to_string(),
+        summary: format!(
+            "[gate {}] schedule {}: {text}",
+            job_name(&job.tasks, job.failing),
+            tr.choices.iter().map(|t| t.name()).collect::<Vec<_>>().join(" "),
+        ),
+        replay: json!({
+            "part": "gate",
+            "tasks": job.tasks.iter().map(|t| t.name()).collect::<Vec<_>>(),
+            "failing": job.failing,
+            "choices": tr.choices.iter().map(|t| t.name()).collect::<Vec<_>>(),
+            "events": tr.events,
+        }),
+        slug: None,
+    }
+}
+
+/// Stateless DFS over release choices, spread over the gate servers.
+fn explore_gates(servers: &mut [GateServer], roots: Vec<GateJob>, deadline: Instant, exhaustive: &mut bool) -> GateTotals {
+    let queue: Mutex<VecDeque<GateJob>> = Mutex::new(roots.into_iter().collect());
+    let in_flight = AtomicUsize::new(0);
+    let totals = Mutex::new(GateTotals::default());
+    let capped = AtomicBool::new(false);
+    std::thread::scope(|s| {
+        for gs in servers.iter_mut() {
+            s.spawn(|| loop {
+                let job = {
+                    let mut qg = queue.lock().unwrap();
+                    match qg.pop_back() {
+                        Some(j) => {
+                            in_flight.fetch_add(1, Ordering::SeqCst);
+                            Some(j)
+                        }
+                        None => None,
+                    }
+                };
+                let Some(job) = job else {
+                    if in_flight.load(Ordering::SeqCst) == 0 {
+                        break;
+                    }
+                    std::thread::sleep(Duration::from_millis(2));
+                    continue;
+                };
+                if Instant::now() > deadline {
+                    capped.store(true, Ordering::SeqCst);
+                    in_flight.fetch_sub(1, Ordering::SeqCst);
+                    continue;
+                }
+                let tr = gs.run_schedule(&job.tasks, job.failing, &job.prefix);
+                // children: every alternative at every step at or after the prefix
+                let mut children = Vec::new();
+                if tr.machinery.is_none() {
+                    for i in job.prefix.len()..tr.choices.len() {
+                        for alt in &tr.enabled[i] {
+                            if *alt != tr.choices[i] {
+                                let mut p = tr.choices[..i].to_vec();
+                                p.push(*alt);
+                                children.push(GateJob { tasks: job.tasks.clone(), failing: job.failing, prefix: p });
+                            }
+                        }
+                    }
+                }
+                queue.lock().unwrap().extend(children);
+                // replay once: same choices must give the same observation
+                let again = if tr.machinery.is_none() { Some(gs.run_schedule(&job.tasks, job.failing, &tr.choices)) } else { None };
+                let mut t = totals.lock().unwrap();
+                if let Some(m) = &tr.machinery {
+                    t.machinery.push(format!("{}: {m}", job_name(&job.tasks, job.failing)));
+                } else {
+                    t.schedules += 1;
+                    t.releases += tr.releases;
+                    t.blocked += tr.blocked_steps;
+                    t.traces.insert(format!("{}|{}", job_name(&job.tasks, job.failing), tr.signature()));
+                    let key = format!(
+                        "gate/{}/{}",
+                        job_name(&job.tasks, job.failing),
+                        tr.replies.iter().map(|(k, v)| format!("{k}={}", if v == "old" || v == "new" { v.as_str() } else { "other" })).collect::<Vec<_>>().join(",")
+                    );
+                    *t.hist.entry(key).or_insert(0) += 1;
+                    if tr.blocked_steps > 0 {
+                        *t.hist.entry(format!("gate/{}/schedules with a release that blocked on the lock", job_name(&job.tasks, job.failing))).or_insert(0) += 1;
+                    }
+                    for (c, text) in &tr.findings {
+                        let v = gate_violation(&job, &tr, c, text);
+                        t.violations.push(v);
+                    }
+                    if let Some(a) = again {
+                        t.replayed += 1;
+                        if let Some(m) = &a.machinery {
+                            t.nondeterministic += 1;
+                            t.machinery.push(format!("replay of {:?}: {m}", tr.choices));
+                        } else if a.signature() != tr.signature() {
+                            t.nondeterministic += 1;
+                            if t.machinery.len() < 5 {
+                                t.machinery.push(format!("replay differs: first {} / second {}", tr.signature(), a.signature()));
+                            }
+                        }
+                    }
+                    if t.samples.len() < 3 && (tr.blocked_steps > 0 || t.samples.is_empty()) {
+                        t.samples.push(json!({"part": "gate", "tasks": job_name(&job.tasks, job.failing), "events": tr.events, "replies": tr.replies, "afterwards": tr.verify}));
+                    }
+                }
+                drop(t);
+                in_flight.fetch_sub(1, Ordering::SeqCst);
+            });
+        }
+    });
+    if capped.load(Ordering::SeqCst) {
+        *exhaustive = false;
+    }
+    totals.into_inner().unwrap()
+}
+
+fn seq_violation(edits: &[&str], clause: &str, text: &str) -> Violation {
+    Violation {
+        clause: clause.to_string(),
+        summary: format!("[sequential] {text}"),
+        replay: json!({"part": "sequential", "edits": edits}),
+        slug: None,
+    }
+}
+
+pub fn run(ctx: &Ctx) -> i32 {
+    let root = work_dir("c19");
+    let _guard = DirGuard(root.clone());
+    let n_seq = ctx.tier.pick(4usize, 6);
+    let n_gate = ctx.tier.pick(6usize, 8);
+    // all processes are started from this (long-lived) thread
+    let mut seq_servers: Vec<SeqServer> = Vec::new();
+    for k in 0..n_seq {
+        match start_seq_server(&root, k) {
+            Ok(s) => seq_servers.push(s),
+            Err(e) => {
+                eprintln!("C19: machinery error: {e}");
+                return 2;
+            }
+        }
+    }
+    let mut gate_servers: Vec<GateServer> = Vec::new();
+    for k in 0..n_gate {
+        match start_gate_server(&root, k) {
+            Ok(s) => gate_servers.push(s),
+            Err(e) => {
+                eprintln!("C19: machinery error: {e}");
+                return 2;
+            }
+        }
+    }
+    let seq_deadline = ctx.start + Duration::from_secs_f64(ctx.tier.pick(36.0, 300.0));
+    let gate_deadline = ctx.start + Duration::from_secs_f64(ctx.tier.pick(36.0, 540.0));
+    let mut report = Report::new();
+    let sink = Sink::new(6);
+
+    // ---- sequential space -------------------------------------------------------------
+    // quick: every sequence of <= 2 applicable edits from the base.  thorough: breadth-first
+    // to depth 4, one representative sequence per (files, loaded) state.
+    let max_depth = ctx.tier.pick(2usize, 4);
+    let dedup = ctx.tier == Tier::Thorough;
+    let seq_states: Mutex<BTreeSet<(Files, Files)>> = Mutex::new(BTreeSet::new());
+    seq_states.lock().unwrap().insert((BASE, BASE));
+    let seq_hist: Mutex<BTreeMap<String, u64>> = Mutex::new(BTreeMap::new());
+    let seq_counts = (AtomicU64::new(0), AtomicU64::new(0), AtomicU64::new(0), AtomicU64::new(0)); // sequences, signals, marker queries, during queries
+    let seq_samples: Mutex<Vec<Value>> = Mutex::new(Vec::new());
+    let seq_capped = AtomicBool::new(false);
+    let seq_dead = AtomicBool::new(false);
+
+    let mut gate_exhaustive = true;
+    let mut gate_totals = GateTotals::default();
+    std::thread::scope(|outer| {
+        // gate exploration runs beside the sequential one
+        let gate_handle = outer.spawn(|| {
+            let mut roots = vec![
+                GateJob { tasks: vec![Task::R, Task::Q1], failing: false, prefix: vec![] },
+                GateJob { tasks: vec![Task::R, Task::Q1], failing: true, prefix: vec![] },
+            ];
+            if ctx.tier == Tier::Thorough {
+                // pushed first = explored last (the queue is a stack)
+                roots.insert(0, GateJob { tasks: vec![Task::R, Task::Q1, Task::Q2], failing: false, prefix: vec![] });
+                roots.insert(1, GateJob { tasks: vec![Task::R, Task::Q1, Task::Q2], failing: true, prefix: vec![] });
+            }
+            let mut ex = true;
+            let t = explore_gates(&mut gate_servers, roots, gate_deadline, &mut ex);
+            (t, ex)
+        });
+
+        let mut frontier: Vec<Vec<Edit>> = vec![vec![]];
+        for depth in 1..=max_depth {
+            // candidate sequences of this depth
+            let mut cands: Vec<Vec<Edit>> = Vec::new();
+            for pfx in &frontier {
+                let mut f = BASE;
+                for (_, e) in pfx {
+                    f = e(&f).unwrap_or(f);
+                }
+                for ed in EDITS.iter() {
+                    if (ed.1)(&f).is_some() {
+                        let mut s = pfx.clone();
+                        s.push(*ed);
+                        cands.push(s);
+                    }
+                }
+            }
+            let next = AtomicUsize::new(0);
+            let results: Mutex<Vec<(usize, Option<(Files, Files)>)>> = Mutex::new(Vec::new());
+            std::thread::scope(|s| {
+                for srv in seq_servers.iter_mut() {
+                    s.spawn(|| loop {
+                        let i = next.fetch_add(1, Ordering::Relaxed);
+                        if i >= cands.len() {
+                            break;
+                        }
+                        if Instant::now() > seq_deadline {
+                            seq_capped.store(true, Ordering::SeqCst);
+                            break;
+                        }
+                        let mut stats = SeqStats::default();
+                        let end = srv.run_sequence(&cands[i], &mut stats);
+                        seq_counts.0.fetch_add(1, Ordering::Relaxed);
+                        seq_counts.1.fetch_add(stats.signals, Ordering::Relaxed);
+                        seq_counts.2.fetch_add(stats.marker_queries, Ordering::Relaxed);
+                        seq_counts.3.fetch_add(stats.during_queries, Ordering::Relaxed);
+                        let names: Vec<&str> = cands[i].iter().map(|(n, _)| *n).collect();
+                        for (c, text) in &stats.findings {
+                            sink.push(seq_violation(&names, c, text));
+                            if c == "liveness" {
+                                seq_dead.store(true, Ordering::SeqCst);
+                            }
+                        }
+                        if let Some((files, loaded)) = end {
+                            let key = format!(
+                                "sequential/depth {}/last reload {}",
+                                names.len(),
+                                if files.valid() { "succeeds" } else { "fails (old configuration kept)" }
+                            );
+                            *seq_hist.lock().unwrap().entry(key).or_insert(0) += 1;
+                            let mut sm = seq_samples.lock().unwrap();
+                            if sm.len() < 3 && !files.valid() && names.len() == depth {
+                                sm.push(json!({"part": "sequential", "edits": names, "files": files.to_json(), "loaded": loaded.to_json()}));
+                            }
+                        }
+                        results.lock().unwrap().push((i, end));
+                    });
+                }
+            });
+            let mut results = results.into_inner().unwrap();
+            results.sort_by_key(|(i, _)| *i);
+            let mut new_frontier: Vec<Vec<Edit>> = Vec::new();
+            let mut states = seq_states.lock().unwrap();
+            for (i, end) in results {
+                if let Some(st) = end {
+                    let fresh = states.insert(st);
+                    if fresh || !dedup {
+                        new_frontier.push(cands[i].clone());
+                    }
+                }
+            }
+            drop(states);
+            frontier = new_frontier;
+            if seq_capped.load(Ordering::SeqCst) || seq_dead.load(Ordering::SeqCst) {
+                break;
+            }
+        }
+        if let Ok((t, ex)) = gate_handle.join() {
+            gate_totals = t;
+            gate_exhaustive = ex;
+        }
+    });
+
+    let n_states = seq_states.lock().unwrap().len() as u64;
+    let sequences = seq_counts.0.load(Ordering::Relaxed);
+    let signals = seq_counts.1.load(Ordering::Relaxed);
+    let marker_q = seq_counts.2.load(Ordering::Relaxed);
+    let during_q = seq_counts.3.load(Ordering::Relaxed);
+    for v in gate_totals.violations.drain(..) {
+        sink.push(v);
+    }
+    // liveness of every process at the end
+    for s in seq_servers.iter_mut() {
+        if !s.srv.alive() {
+            sink.push(seq_violation(&[], "liveness", &format!("a server process is gone at the end of the run: {}", s.srv.exit_status())));
+        }
+    }
+    for g in gate_servers.iter_mut() {
+        if !g.srv.alive() {
+            sink.push(Violation {
+                clause: "liveness".into(),
+                summary: format!("[gate] a server process is gone at the end of the run: {}", g.srv.exit_status()),
+                replay: json!({"part": "gate", "tasks": ["R", "Q1"], "failing": false, "choices": []}),
+                slug: None,
+            });
+        }
+    }
+    drop(seq_servers);
+    drop(gate_servers);
+
+    report.evaluations = sequences + gate_totals.schedules;
+    report.states = n_states + gate_totals.traces.len() as u64;
+    report.transitions = signals + gate_totals.releases;
+    report.traces_validated = sequences + gate_totals.schedules + gate_totals.replayed;
+    let failing_seqs: u64 = seq_hist.lock().unwrap().iter().filter(|(k, _)| k.contains("fails")).map(|(_, v)| *v).sum();
+    report.distinct_nontrivial = failing_seqs + gate_totals.hist.iter().filter(|(k, _)| k.contains("blocked on the lock")).map(|(_, v)| *v).sum::<u64>();
+    report.rule = "sequential: every edit sequence from the reset state (quick: all of length <= 2; thorough: breadth-first to depth 4 keeping one sequence per distinct (files, loaded) state), SIGUSR1 and all marker queries after every edit; non-trivial = sequences whose last reload must fail (the old configuration has to survive). gate: every schedule of release choices (stateless DFS, each schedule run twice); non-trivial = schedules in which a released task was observed to block on the zones lock (the two critical sections were actually contended)".into();
+    report.merge_hist(&seq_hist.lock().unwrap());
+    report.merge_hist(&gate_totals.hist);
+    report.samples = seq_samples.lock().unwrap().clone();
+    report.samples.extend(gate_totals.samples.clone());
+    report.exhaustive = gate_exhaustive && !seq_capped.load(Ordering::SeqCst);
+    report.bounds = json!({
+        "edit_alphabet": EDITS.iter().map(|(n, _)| *n).collect::<Vec<_>>(),
+        "max_sequence_length": max_depth,
+        "dedup_on_files_and_loaded": dedup,
+        "marker_names": MARKERS,
+        "distinct_files_loaded_states": n_states,
+        "edit_sequences_run": sequences,
+        "sigusr1_sent": signals,
+        "marker_queries_after_reload": marker_q,
+        "marker_queries_during_reload_not_exhaustive": during_q,
+        "gate_task_sets": if ctx.tier == Tier::Thorough { vec!["R || Q1", "R || Q1 (failing)", "R || Q1 || Q2(coarse)", "R || Q1 || Q2(coarse) (failing)"] } else { vec!["R || Q1", "R || Q1 (failing)"] },
+        "gate_breakpoints": {"R": ["start (SIGUSR1 sent)", "reload.signal", "reload.want_lock", "reload.locked", "reload.done"], "Q": ["start (datagram sent)", "query.locked", "local.lookup", "local.lookup", "query.resolved"], "Q2": "start and query.locked only; later breakpoints pass unscheduled"},
+        "gate_schedules": gate_totals.schedules,
+        "gate_schedules_replayed": gate_totals.replayed,
+        "gate_releases": gate_totals.releases,
+        "gate_releases_observed_blocking": gate_totals.blocked,
+        "gate_replays_that_differed": gate_totals.nondeterministic,
+        "quiet_period_ms": QUIET.as_millis() as u64,
+        "sequential_cap_hit": seq_capped.load(Ordering::SeqCst),
+        "gate_cap_hit": !gate_exhaustive,
+    });
+    report.assumptions = vec![
+        "the tokio scheduler is controlled only at the breakpoints; between two breakpoints a task runs unobserved".into(),
+        "a task released while the lock it needs is (by the driver's bookkeeping) taken gets 120 ms to reach its next breakpoint before it is classified blocked; every other awaited event gets 6 s; late arrivals join the parked set".into(),
+        "queries fired between SIGUSR1 and the log line observe whatever schedule happens (not exhaustive; a disagreement is still a violation)".into(),
+        "all servers run --authoritative-only with -s 1".into(),
+    ];
+    report.violations = sink.take();
+    report.extra.insert("violation_counts".into(), json!(sink.counts()));
+    if !gate_totals.machinery.is_empty() {
+        report.extra.insert("machinery_notes".into(), json!(gate_totals.machinery.iter().take(5).collect::<Vec<_>>()));
+    }
+    let machinery_failed = (gate_totals.schedules == 0 || gate_totals.nondeterministic > 0 || !gate_totals.machinery.is_empty()) && report.violations.is_empty();
+    if machinery_failed {
+        for m in gate_totals.machinery.iter().take(5) {
+            eprintln!("C19: machinery: {m}");
+        }
+        eprintln!("C19: machinery error: {} schedules, {} replays differed, {} machinery notes", gate_totals.schedules, gate_totals.nondeterministic, gate_totals.machinery.len());
+        let _ = finish(ctx, report);
+        return 2;
+    }
+    finish(ctx, report)
+}
+
+pub fn replay(_ctx: &Ctx, v: &Value) -> i32 {
+    let root = work_dir("c19");
+    let _guard = DirGuard(root.clone());
+    let mut bad = false;
+    if v["part"].as_str() == Some("gate") {
+        let tasks: Vec<Task> = v["tasks"].as_array().cloned().unwrap_or_default().iter().filter_map(|t| Task::from_name(t.as_str().unwrap_or(""))).collect();
+        let choices: Vec<Task> = v["choices"].as_array().cloned().unwrap_or_default().iter().filter_map(|t| Task::from_name(t.as_str().unwrap_or(""))).collect();
+        let failing = v["failing"].as_bool().unwrap_or(false);
+        let mut gs = match start_gate_server(&root, 0) {
+            Ok(g) => g,
+            Err(e) => {
+                eprintln!("C19: machinery error: {e}");
+                return 2;
+            }
+        };
+        let tr = gs.run_schedule(&tasks, failing, &choices);
+        println!("C19 replay: gate schedule for {}", job_name(&tasks, failing));
+        for e in &tr.events {
+            println!("  {e}");
+        }
+        println!("  log verdict: {}; replies: {:?}; afterwards: {}", tr.log_verdict, tr.replies, tr.verify);
+        println!("  reference: every reply entirely old or entirely new (new once the reload held the write lock before the query's read lock, old if the query resolved before the reload passed reload.locked{})", if failing { "; the reload must fail, so everything stays old" } else { "" });
+        if let Some(m) = &tr.machinery {
+            eprintln!("C19: machinery error: {m}");
+            return 2;
+        }
+        for (c, t) in &tr.findings {
+            println!("  MISMATCH {c}: {t}");
+            bad = true;
+        }
+    } else {
+        let names: Vec<String> = v["edits"].as_array().cloned().unwrap_or_default().iter().map(|e| e.as_str().unwrap_or("").to_string()).collect();
+        let edits: Vec<Edit> = names.iter().filter_map(|n| edit_by_name(n)).collect();
+        if edits.len() != names.len() {
+            eprintln!("C19: replay file names an unknown edit");
+            return 2;
+        }
+        let mut srv = match start_seq_server(&root, 0) {
+            Ok(s) => s,
+            Err(e) => {
+                eprintln!("C19: machinery error: {e}");
+                return 2;
+            }
+        };
+        let mut stats = SeqStats::default();
+        let end = srv.run_sequence(&edits, &mut stats);
+        println!("C19 replay: edits {names:?}, SIGUSR1 after each");
+        if let Some((files, loaded)) = end {
+            println!("  reference: files = {}", files.to_json());
+            println!("  reference: in force = {}", loaded.to_json());
+        }
+        for (c, t) in &stats.findings {
+            println!("  MISMATCH {c}: {t}");
+            bad = true;
+        }
+        if stats.findings.is_empty() {
+            println!("  server: log verdicts and all {} marker answers agree with the table after each of the {} reloads", MARKERS.len(), stats.signals);
+        }
+    }
+    if bad {
+        println!("VIOLATION property=C19 replay=(replayed case)");
+        1
+    } else {
+        println!("holds on the replayed case");
+        0
+    }
+}
+
+/// Entry point for `vcheck worker C19 <args...>` (child-process mode): unused.
 pub fn worker(_args: &[String]) -> i32 {
     2
 }
